@@ -13,10 +13,21 @@ LEVEL_TEXT = ("Theorems in Lean: prepending k newlines to a block's text moves e
               "padded_error_line / markdown_error_line: a redefinition or proportion error of a padded block is the same error, k lines further down, at the "
               "same column, quoting the same text, where k = paddedSource's count of document lines before the block); the padded source the front end builds (lines before the block, +1 for a "
               "fence) is compared exactly with the model on the code blocks marko reports; that the reported line is the document line of the offending "
-              "token is checked by injecting one fault at every statement position of generated documents.")
-LEVEL_NOTE = ("Partial: rests on the per-document hypothesis H_marko (the captured source is the block's lines with one prefix removed per line; pos is the "
-              "offset of the first code line resp. the fence line), which is marko's behaviour and is observed, not proved. Trusted: Lean kernel.")
-LEAN_MODULES = ["RecipeGrid.Props.C19", "RecipeGrid.Props.C19b"]
+              "token is checked by injecting one fault at every statement position of generated documents. "
+              "Syntax errors (C19c): the located parser model parseE is position independent including its furthest-failure offset (parseE_pad), hence "
+              "padded_syntax_error_line / markdown_syntax_error_line: the syntax error of a padded non-empty block is reported k lines further down, same "
+              "column, same quoted line. From the document text (C19d): scanBlocks, a Lean model of the part of CommonMark block structure that decides "
+              "which lines are recipe code (fenced blocks of both characters with indentation stripping, indented blocks, paragraphs with lazy continuation, "
+              "LF / CRLF / lone CR endings) on the sub-language D of documents without containers, tabs, HTML blocks, setext underlines and link reference "
+              "definitions (decidable predicate inDoc); scan_block_lines: every line of the padded source of every block is the document's own line of that "
+              "number minus its indentation; doc_error_line: a compile error in a block is reported with the number of the document line that holds the "
+              "offending text - for every document of D, with no observed hypothesis; the scanner is compared exactly with marko (kind, language, pos, "
+              "captured source, padded source, start line) on generated documents of D.")
+LEVEL_NOTE = ("Partial: outside the sub-language D (recipe blocks inside list items and block quotes, tabs, HTML blocks ...) the theorems rest on the "
+              "per-document hypothesis H_marko (the captured source is the block's lines with one prefix removed per line; pos is the offset of the first code "
+              "line resp. the fence line), which is marko's behaviour and is observed per generated document, not proved; inside D that hypothesis is replaced by "
+              "the scanner model, tied to marko by exact correspondence (that scanBlocks equals marko is validated, not proved). Trusted: Lean kernel.")
+LEAN_MODULES = ["RecipeGrid.Props.C19", "RecipeGrid.Props.C19b", "RecipeGrid.Props.C19c", "RecipeGrid.Props.C19d"]
 SOURCES = ["recipe_grid/markdown.py", "recipe_grid/compiler.py"]
 RULE = ("documents of C13 (top level / list item / block quote x indented / fenced with either fence character, several blocks and independent recipes) with "
         "one injected fault (redefinition, proportion of an unknown name, stray token) at a random statement of a random block; LF and CRLF line endings; "
@@ -169,6 +180,58 @@ def correspondence(run):
         run.groups["get_line_number_corrected_source"] += 1
         if impl != m:
             run.disagree("padsrc", doc, impl[:300], str(m)[:300])
+    scanner_correspondence(run)
+    syntax_position_correspondence(run)
+
+
+def scanner_correspondence(run):
+    """C19d: the model of the block scanner (which lines of a document are recipe code, where each block starts, what text is captured)
+    against marko + markdown.py, on documents of the sub-language D (md-indoc) - kind and language, pos, captured source, padded source,
+    start line; and the statement of scan_block_lines checked on marko's own output"""
+    from .. import mdblocks_corr
+    r = mdblocks_corr.collect(run.seed * 7919 + 20260930, run.budget(500, 8000), run.budget(400, 6000), ask=run.ask)
+    n_in = sum(r["in_d_by_group"].values())
+    run.groups["marko code blocks (pos, source, language, padded source) vs scanBlocks, documents in D"] += n_in
+    for k, v in r["dist"].items():
+        run.dist["md-blocks:" + k] += v
+    run.evaluations += r["docs"]
+    run.note("block scanner: %d distinct documents, %d in the sub-language D; outside D (no claim) model and marko differ on %r; marko itself raised on %d documents (all outside D: %s)"
+             % (r["docs"], n_in, dict(r["outside_disagree"]), len(r["crashes"]), all(not c[3] for c in r["crashes"])))
+    for d in r["disagreements"][:20]:
+        run.disagree("md-blocks:" + d[0], d[1], repr(d[2])[:600], repr(d[3])[:600])
+    for t, bad in r["prop_fail"][:10]:
+        run.disagree("md-blocks:line-property", t, repr(bad[:2])[:600], "scan_block_lines")
+
+
+def syntax_position_correspondence(run):
+    """C19c / C07c: where a syntax error is reported (line, column, quoted line) - peggie's furthest failure vs the model's parseE - on the
+    blocks of faulty documents, alone and padded with the newlines the front end puts before them"""
+    from .. import parser_corr
+    from recipe_grid.parser import parse as rg_parse
+    texts = []
+    for _ in range(run.budget(150, 3000)):
+        c = gen_case(run.rng, "\n")
+        for b in c["document"].split("\n\n"):
+            texts.append(b)
+        k = run.rng.randint(0, 9)
+        texts.append("\n" * k + c["snippet"] + "\nnext = 1 g x\n")
+    texts += parser_corr.EDGE_CASES
+    rep = run.ask([sexp.tag("parse-err", sexp.s(t)) for t in texts])
+    for t, m in zip(texts, rep):
+        try:
+            rg_parse(t)
+            real = ("ok",)
+        except ParseError as e:
+            real = ("syntax", e.line, e.column, e.snippet)
+        except RecursionError:
+            continue
+        except Exception as e:  # noqa  (an undocumented exception after a successful parse is C07's business)
+            real = ("ok",)
+        model = ("ok",) if tuple(m) == ("ok",) else ("syntax", m[2], m[3], m[4])
+        run.case(("parse-err", t), real[0] == "syntax", kind="syntax-position:" + real[0])
+        run.groups["ParseError line/column/snippet vs parseE"] += 1
+        if real != model:
+            run.disagree("parse-err", t, repr(real)[:300], repr(model)[:300])
 
 
 def oracle(run):
